@@ -176,7 +176,7 @@ func runNative(g Group, pkgName string, harnesses []string, cases []nativeCase, 
 			got++
 		}
 	}
-	cmdline := "cd /repo && go " + strings.Join(args, " ")
+	cmdline := "cd " + repoDir + " && go " + strings.Join(args, " ")
 	if got < len(cases) {
 		return res, cmdline, fmt.Errorf("native run produced %d of %d results (err=%v):\n%s", got, len(cases), err, tail(out.String(), 40))
 	}
